@@ -674,6 +674,24 @@ pub fn gen_c16(rng: &mut Rng) -> Value {
         wcfg: WriteCfg { by_hash_pct: 30, rich_opts: false, declare_size_pct: 30, algos: true, ends: false },
     };
     let mut sc = gen_history(rng, &m);
+    // writers whose declared size is wrong are rejected - and must leave the copy that is already stored byte-identical
+    {
+        let lens: Vec<u64> = sc["vals"].as_array().unwrap().iter().map(|v| v["len"].as_u64().unwrap_or(0)).collect();
+        let steps = sc["steps"].as_array_mut().unwrap();
+        for st in steps.iter_mut() {
+            if st["op"] == "write" && st["entry"] == "opts" && rng.chance(1, 6) {
+                let len = lens[st["val"].as_u64().unwrap_or(0) as usize];
+                let wrong = match rng.below(4) { 0 => len + 1, 1 => len.saturating_sub(1), 2 => len / 2, _ => len + 300 };
+                if wrong != len {
+                    st["opts"]["size"] = json!(wrong);
+                    if len >= 2 {
+                        let a = rng.range(1, len - 1);
+                        st["chunks"] = json!([a, len - a]);
+                    }
+                }
+            }
+        }
+    }
     // damage one algorithm's copy: only reads addressed by that algorithm may fail; when the damage comes early,
     // later re-writes of the same bytes must repair the copy (a successful write is readable afterwards)
     if rng.chance(1, 2) {
